@@ -1,6 +1,8 @@
 package main
 
 import (
+	"strconv"
+	"math"
 	"math/big"
 
 	"gopkg.in/typ.v4"
@@ -128,6 +130,25 @@ func (c20) step(t []string) string {
 		return bad()
 	}
 	switch t[1] {
+	case "f64":
+		// float64 operands cross the pipe as their IEEE-754 bit patterns (int64); the result likewise, NaN as "nan"
+		var xs []float64
+		for _, b := range bigList(t[2]) {
+			xs = append(xs, math.Float64frombits(uint64(b.Int64())))
+		}
+		var r float64
+		switch t[0] {
+		case "sum":
+			r = typ.Sum(xs...)
+		case "product":
+			r = typ.Product(xs...)
+		default:
+			return bad()
+		}
+		if r != r {
+			return "nan"
+		}
+		return strconv.FormatInt(int64(math.Float64bits(r)), 10)
 	case "i8":
 		if r, ok := doSigned[int8](t); ok {
 			return r
